@@ -31,7 +31,7 @@ HEAD = ("#![allow(dead_code, unused, clippy::all, non_camel_case_types)]\nuse cr
         "use core::fmt::{self, FormattingOptions, Write as _};\nuse core::ptr;\n\n")
 
 DESCRIPTION = {
-    "programs": "equivalence: 19 families of 2-4 spellings each; rejection: the must-not-compile list (unknown / duplicated / misplaced / legacy / "
+    "programs": "equivalence: 23 families of 2-7 spellings each; rejection: the must-not-compile list (unknown / duplicated / misplaced / legacy / "
                 "contradicting arguments in documented positions of Debug, Display, From, Into, AsRef, Deref, Error, TryFrom, IsVariant, Unwrap, "
                 "TryInto, Mul, IntoIterator, Index)",
     "values": "every field value symbolic (u8 / u16 / u32, arrays of 3 bytes, probe ids); formatter width and precision values symbolic, flags from a "
